@@ -168,7 +168,7 @@ def do_replay(prop, path, verbose=True):
             print(f"  detail: {r['violation']['detail']}")
             if verbose and which == "minimized":
                 for line in r["log"][-6:]:
-                    print("  ", json.dumps(line, sort_keys=True))
+                    print("  ", json.dumps(line, sort_keys=True)[:600])
             worst = max(worst, 1)
         elif r["status"] in ("ok", "premise"):
             print(f"replay[{which}]: NOT-REPRODUCED (status {r['status']})")
@@ -240,9 +240,9 @@ def main(argv):
     if args.index is not None:
         r = kernel.run_index(prop, seed, args.index, tier, keep_log=True, wall_budget=budget)
         print(json.dumps({k: r[k] for k in ("status", "cfg", "salt", "cycles", "digest", "violation", "cov")},
-                         indent=1, sort_keys=True, default=str))
-        for line in r["log"][-12:]:
-            print(json.dumps(line, sort_keys=True))
+                         sort_keys=True, default=str)[:3000])
+        for line in r["log"][-4:]:
+            print(json.dumps(line, sort_keys=True)[:600])
         return 0 if r["status"] == "ok" else 1
 
     print(f"check {pid} tier={tier} VERIF_SEED={seed} jobs={jobs} repo={repo_rev()}")
